@@ -50,6 +50,20 @@ def build(tier: str) -> List[Cond]:
                                       sym=[("mode_i", "int"), ("as_str", "bool"), ("nt", "bool"), ("ct", "bool")] + flags,
                                       pre=["0 <= mode_i <= 2"] + ([f"mode_i == {split}", f"as_str == {bool(split % 2)}"] if split is not None else []),
                                       timeout=t, functions=FUNCS, bounds=f"sequence {seq}; which residues/termini are pre-modified, mode and return type symbolic"))
+        # two rules for one terminus (unconditioned + residue-conditioned, or two conditioned ones): each counts against the input's
+        # terminus, not against what an earlier rule of the same call put there
+        TWO = [(("", ["Ta"]), (seq[-1], ["Tb"])), ((seq[-1], ["Tb"]), ("[" + seq[-1] + "X]", ["Tc"]))]
+        for wi, which in enumerate(("cterm", "nterm")):
+            for ti2, (r1, r2) in enumerate(TWO):
+                if which == "nterm":
+                    r1, r2 = ((r1[0] and seq[0]), r1[1]), ((("[" + seq[0] + "X]") if r2[0].startswith("[") else seq[0]), r2[1])
+                if tier == "quick" and L >= 3 and ti2 == 1:
+                    continue
+                shape = dict(seq=seq, rules=[STATIC_RULESETS[0][0]], nrule=None, crule=None)
+                shape.update({"crule": r1, "crule2": r2} if which == "cterm" else {"nrule": r1, "nrule2": r2})
+                conds.append(Cond(oid=f"static/{seq}/two-{which}-rules={ti2}", clause="two rules for one terminus: both apply to an unmodified terminus; skip/append/overwrite refer to the input's state",
+                                  module="vf.h.c13", func="o_static", shape=shape, sym=[("mode_i", "int"), ("as_str", "bool"), ("nt", "bool"), ("ct", "bool")] + flags,
+                                  pre=["0 <= mode_i <= 2"], timeout=t, functions=FUNCS, bounds=f"sequence {seq}; pre-modified residues/termini, mode and return type symbolic"))
         for ri, rules in enumerate(VAR_RULESETS):
             for ni, nrule in enumerate(VAR_NTERM):
                 if tier == "quick" and ((ri + ni + L) % 2) and L > 2:
